@@ -342,4 +342,73 @@ theorem fp_half_eq (out a : Nat) : SqiGen.FpRef.fp_half P out a = Ref.fp_half P 
 
 end dom2
 
+/-! ## `fp_select` (limb-wise mask) -/
+
+theorem limb_xor (a b i : Nat) : limb (a ^^^ b) i = limb a i ^^^ limb b i := by
+  unfold limb
+  rw [← Nat.shiftRight_eq_div_pow, ← Nat.shiftRight_eq_div_pow, ← Nat.shiftRight_eq_div_pow,
+    Nat.shiftRight_xor_distrib, Nat.xor_mod_two_pow]
+
+theorem limb_and (a b i : Nat) : limb (a &&& b) i = limb a i &&& limb b i := by
+  unfold limb
+  rw [← Nat.shiftRight_eq_div_pow, ← Nat.shiftRight_eq_div_pow, ← Nat.shiftRight_eq_div_pow,
+    Nat.shiftRight_and_distrib, Nat.and_mod_two_pow]
+
+theorem limb_cons (w x i : Nat) (hw : w < 2 ^ 64) :
+    limb (w + W * x) i = if i = 0 then w else limb x (i - 1) := by
+  unfold limb W
+  by_cases e : i = 0
+  · subst e
+    rw [if_pos rfl, Nat.mul_zero, Nat.pow_zero, Nat.div_one, Nat.add_mul_mod_self_left, Nat.mod_eq_of_lt hw]
+  · rw [if_neg e]
+    have e1 : 2 ^ (64 * i) = 2 ^ 64 * 2 ^ (64 * (i - 1)) := by rw [← Nat.pow_add]; congr 1; omega
+    rw [e1, ← Nat.div_div_eq_div_mul, Nat.add_mul_div_left _ _ (Nat.two_pow_pos _), Nat.div_eq_of_lt hw, Nat.zero_add]
+
+theorem limb_replLimb (n w i : Nat) (hw : w < 2 ^ 64) (hi : i < n) : limb (Ref.replLimb n w) i = w := by
+  induction n generalizing i with
+  | zero => omega
+  | succ n ih =>
+    rw [Ref.replLimb, limb_cons _ _ _ hw]
+    by_cases e : i = 0
+    · rw [if_pos e]
+    · rw [if_neg e]; exact ih (i - 1) (by omega)
+
+theorem replLimb_lt (n w : Nat) (hw : w < 2 ^ 64) : Ref.replLimb n w < 2 ^ (64 * n) := by
+  induction n with
+  | zero => simp [Ref.replLimb]
+  | succ n ih =>
+    rw [Ref.replLimb]
+    have e : 2 ^ (64 * (n + 1)) = 2 ^ 64 * 2 ^ (64 * n) := by rw [← Nat.pow_add]; congr 1; omega
+    rw [e]
+    unfold W
+    calc w + 2 ^ 64 * Ref.replLimb n w < 2 ^ 64 + 2 ^ 64 * Ref.replLimb n w := by omega
+      _ = 2 ^ 64 * (Ref.replLimb n w + 1) := by ring
+      _ ≤ 2 ^ 64 * 2 ^ (64 * n) := Nat.mul_le_mul_left _ (by omega)
+
+theorem ctlWord_lt (ctl : Nat) : Ref.ctlWord ctl < 2 ^ 64 := by
+  unfold Ref.ctlWord; split <;> omega
+
+theorem sext32_eq (ctl : Nat) : u64 (sext32 ctl) = Ref.ctlWord ctl := by
+  have := ctlWord_lt ctl
+  unfold u64 sext32
+  unfold Ref.ctlWord at this ⊢
+  exact Nat.mod_eq_of_lt this
+
+theorem fp_select_eq (P : RefParams) (d a0 a1 ctl : Nat) (hd : d < P.R) (h0 : a0 < P.R) (h1 : a1 < P.R) :
+    SqiGen.FpRef.fp_select P d a0 a1 ctl = Ref.fp_select P a0 a1 ctl := by
+  unfold SqiGen.FpRef.fp_select Ref.fp_select
+  have hf : SqiGen.FpRef.fp_select_loop_1 P a0 a1 (u64 (sext32 ctl)) = fun y i => setLimb P.n y i
+      ((fun i => limb a0 i ^^^ (Ref.ctlWord ctl &&& (limb a0 i ^^^ limb a1 i))) i) := by
+    funext y i; simp only [SqiGen.FpRef.fp_select_loop_1, sext32_eq]
+  simp only [hf]
+  have hc := ctlWord_lt ctl
+  have hr := replLimb_lt P.n _ hc
+  have hR : P.R = 2 ^ (64 * P.n) := rfl
+  rw [hR] at hd h0 h1
+  refine eq_of_limbs P.n _ _ (store_loop_lt P.n 0 _ d hd P.n (Nat.zero_le _))
+    (Nat.xor_lt_two_pow h0 (Nat.and_lt_two_pow _ (Nat.xor_lt_two_pow h0 h1))) (fun j hj => ?_)
+  rw [store_loop P.n 0 _ d P.n (Nat.zero_le _) (Nat.le_refl _) j hj, if_pos ⟨Nat.zero_le _, hj⟩,
+    limb_xor, limb_and, limb_xor, limb_replLimb _ _ _ hc hj]
+  exact Nat.mod_eq_of_lt (Nat.xor_lt_two_pow (limb_lt _ _) (Nat.and_lt_two_pow _ (Nat.xor_lt_two_pow (limb_lt _ _) (limb_lt _ _))))
+
 end SqiProofs.FpRefGen
